@@ -164,7 +164,7 @@ type propVerdict struct {
 // contractLevel: obligation kinds whose disappearance means the proof
 // carrier is gone.
 func contractLevel(name string) bool {
-	return strings.Contains(name, "#post:") || strings.Contains(name, "#frame:") || strings.HasPrefix(name, "lemma:") || strings.Contains(name, "#inv-")
+	return strings.Contains(name, "#post:") || strings.Contains(name, "#frame:") || strings.HasPrefix(name, "lemma:") || strings.Contains(name, "#inv-") || strings.Contains(name, "#callsite:")
 }
 
 func (r *Report) emit(verif string, writeEvidence, verbose bool) int {
